@@ -1172,7 +1172,11 @@ RULE = ('every request runs in a binary built with ASan+UBSan, _GLIBCXX_ASSERTIO
         'depth-1 set and a subset of depth 2 over BOUNDED storage (ndarray_t<static_vector<int,64>,static_vector<size_t,4>> with '
         'static_vector<_,8> arguments), FIXED buffers (ndarray_t<std::array,std::array>), hybrid_ndarray and fixed_ndarray; mutable_reshape/'
         'flatten/slice/ref writing every element over four storage kinds; add / concatenate of two views (trees); assign_result over '
-        'over-provisioned launches. Values are compared with NumPy, indexing chains also with the Lean model (composition of the per-kind '
+        'over-provisioned launches. CAPACITY (h_c02cap.cpp): 16 index functions called with static_vector operands of a capacity chosen per request '
+        '(full capacity and with slack): expand_dims (1..3 axes, int axis), squeeze, remove_single_dims, sliding_window (window / axis lists, None, scalars), take, '
+        'dynamic slice, moveaxis, normalize_axis, roll, resize, expand, diagonal, matmul (all rank pairs 1..4), pool2d, incl. refused arguments; the answer carries '
+        'bounded_size_v of the real result type. (h_c02capv.cpp) the same kinds as VIEWS over ndarray_t<static_vector<int,64>,static_vector<size_t,rank>> '
+        '(shape container at full capacity, argument lists in static_vector<_,len>), every element read. Values are compared with NumPy, indexing chains also with the Lean model (composition of the per-kind '
         'IxViews). REPLAY: the accepted requests (reference answer is a value; not in a known-finding class of the owning property) of the '
         'generators of C03, C04, C06, C07 (first TU), C08 through their own harness sources rebuilt with sanitizers + hook events '
         '(operands <= 128 / 512 elements; at most 12000 / 10000 requests per binary, uniformly subsampled beyond that); only '
@@ -1183,6 +1187,11 @@ ANCHORS = {
     'Props.C02.buffer_access_in_bounds (NDA.offset < data.length)': 'base_ndarray_t::operator() -> offset_(indices) -> at(data_, offset) (ndarray/base_ndarray.hpp)',
     'Props.C02.eval_indices_inShape': 'evaluator_t<view,none>::operator()(output&): ndindex(shape) for both sides (eval.hpp)',
     'Props.C02.*_len_le_cap': 'resolve_optype of index::shape_transpose / shape_reshape / broadcast_shape / shape_tile / remove_dims / shape_concatenate / shape_pad / shape_repeat for bounded operands; utl::static_vector::resize/push_back (hook event 1)',
+    'Cap.capExpandDims / capSame / capSlidingWindow / capDiagonal / capMatmul (Index/Capacity.lean) + Props.C02.shapeExpandDims_len_le_cap … shapePool2d_len_le_cap':
+        'meta::resolve_optype<index::shape_expand_dims_t | shape_squeeze_t | remove_single_dims_t | shape_sliding_window_t | shape_take_t | shape_dynamic_slice_t | '
+        'moveaxis_to_transpose_t | normalize_axis_t | shape_roll_t | shape_resize_t | shape_expand_t | shape_diagonal_t | shape_matmul_t | shape_pool2d_t> '
+        '(bounded branch) and the resize()/at() loops of the functions (index/*.hpp, view/expand.hpp, view/diagonal.hpp, view/matmul.hpp); the harness prints '
+        'meta::bounded_size_v of the real result type (h_c02cap.cpp)',
     'Driver.C02.chainView (IxView.comp of the per-kind models)': 'nested view::X(view::Y(array,...),...) read through apply_at',
     'Props.C02.<kind>_inBounds': 'the index function of that view kind, see ANCHORS of C03 / C04 / C06 / C07 / C08 / C17',
 }
@@ -1194,7 +1203,17 @@ ASSUMPTIONS = [
     'size_t arithmetic does not wrap: element counts explored are <= 600 per view',
 ]
 PARTIAL = [
-           'capacity theorems cover shape_transpose, shape_reshape, broadcast_shape, shape_tile, remove_dims, shape_concatenate, shape_pad, shape_repeat; the other bounded index results (expand_dims, sliding_window, take, ...) are covered by the capacity hook only']
+    'capacity theorems (X_len_le_cap) cover the SHAPE functions shape_transpose, shape_reshape, broadcast_shape, shape_tile, remove_dims, '
+    'shape_concatenate, shape_pad, shape_repeat, shape_expand_dims, shape_squeeze, remove_single_dims, shape_sliding_window, shape_take, '
+    'shape_slice, shape_dynamic_slice, moveaxis_to_transpose, normalize_axis, shape_roll, shape_resize, shape_expand, shape_diagonal, '
+    'shape_matmul, shape_pool2d, and the index MAPS index::sliding_window / take / roll / resize / expand / diagonal (result bound = the source '
+    'shape\'s bound); not covered by a theorem (capacity hook + sanitizers on bounded operands at full capacity only): index::matmul / '
+    'slice_pool2d slice lists, the convolution helpers of view/convnd.hpp (conv_reshape_input / weight / reduce / '
+    'bias, conv_kernel_size, conv_window_axis, conv_sum_axes, conv_expand_spacing, conv_pad), shape_flip (flip_slices over a clipped '
+    'rank), the stack family (vstack / dstack / column_stack shapes), kron / tensordot / dot / inner shapes',
+    'the capacity functions of Index/Capacity.lean model the branch "every operand bounded, none fixed" of each result-type metafunction; '
+    'mixed fixed/bounded operand kinds are C11\'s / C09\'s',
+]
 def _shared_pred(mod, name):
     def f(case):
         m = _mod(mod)
@@ -1210,12 +1229,12 @@ for _m, _names in SHARED_KNOWN.items():
 TRUSTED = ['AddressSanitizer / UndefinedBehaviorSanitizer of g++ 12 and libstdc++ debug assertions as observers of real accesses',
            'the NMTOOLS_VERIF hook commits in $VERIF_REPO (hooks.json)']
 MANIFEST = dict(
-    text='Proof (index level): 67 Lean theorems. Every modelled view kind (55 obligations re-exported from C03/C04/C06/C07/C08/C17: transpose, '
+    text='Proof (index level): 89 Lean theorems. Every modelled view kind (55 obligations re-exported from C03/C04/C06/C07/C08/C17: transpose, '
          'reshape family, flip, swapaxes, moveaxis, tile, pad, take, repeat, concatenate, roll, resize, compress, expand, tril/triu, diagflat, '
          'sliding_window (scalar / list windows, axis lists, None), split (sections and cut lists), diagonal (any rank / axis pair / offset), where, stack family, broadcast_to/broadcast_arrays, ufunc operand reads, reduce/accumulate reads, pooling windows) maps '
          'every in-shape destination index to an in-shape source index for all ranks/extents/accepted arguments; in-bounds-ness composes through '
          'chains of any depth and through two-operand trees; an in-shape index addresses a position below the buffer length in both layouts; '
-         'evaluators only enumerate in-shape indices; index functions with bounded results write at most the operands\' bound many entries. '
+         'evaluators only enumerate in-shape indices; index functions with bounded results (23 shape functions, 6 index maps) write at most as many entries as the bound the result-type metafunction picks from the operands\' bounds (the bound itself is compared with bounded_size_v of the real result type on every run). '
          'Tied to the headers on every run: the real code under ASan+UBSan+_GLIBCXX_ASSERTIONS+asserts and the capacity/clamp/eval-skip hooks, on '
          'chains/trees of 13 view kinds over dynamic, bounded, fixed, hybrid storage (values vs NumPy and vs the Lean composition model), '
          'mutable views, and a replay of the accepted requests of C03/C04/C05/C06/C07/C08.',
